@@ -56,7 +56,8 @@ def cases(draw, tier):
         types = draw(st.sampled_from([UNARY_HEAVY, UNARY_HEAVY, list(gen.ALL_TYPES), ONLY_NEG, ONLY_BUF]))
     nl = draw(gen.netlists(min_inputs=0, max_inputs=7 if big else 5, max_gates=40 if big else 22, types=types,
                            max_arity=4, styles=('plain', 'digits', 'mixed'), max_outputs=5,
-                           dup_rate=draw(st.sampled_from([0, 2, 4])), const_operands=(0, 0, 2)))
+                           dup_rate=draw(st.sampled_from([0, 2, 4])), const_operands=(0, 0, 2),
+                           sinks_as_outputs=draw(st.booleans())))
     return {'nl': nl, 'route': draw(gen.routes(nl)), 'spec': spec}
 
 
@@ -112,6 +113,19 @@ def apply_spec(spec, circuit):
     if spec[0] == 'list':
         return m['Transformer'].apply_transformers(circuit, [build_transformer(s) for s in spec[1]])
     return build_transformer(spec).transform(circuit)
+
+
+def netlist_twin_classes(nl) -> set:
+    """Structural near-duplicates that signature hashing could confuse."""
+    cls = set()
+    seen = {}
+    for lab, ty, ops in nl['gates']:
+        if ty in ('XOR', 'NXOR') and len(ops) >= 2:
+            key = (ty, tuple(sorted(set(ops))))
+            if key in seen and seen[key] != tuple(sorted(ops)):
+                cls.add('xor_same_set_other_multiset')
+            seen.setdefault(key, tuple(sorted(ops)))
+    return cls
 
 
 def spec_classes(spec) -> set:
